@@ -20,29 +20,31 @@ import (
 // delivered on the request's "feedback" channel, once the response body has been read to EOF or closed. ----
 
 type DoOutcome struct {
-	Err      bool // transport error
-	Status   int
-	Header   http.Header
-	Chunks   []int // sizes of the successive body reads before EOF
-	ReadErr  bool  // the body fails after the chunks instead of reaching EOF
-	Prefix   string // first bytes of the body (selects the MIME type the real sniffer sees in the native replay)
+	Err         bool // transport error
+	Status      int
+	Header      http.Header
+	Chunks      []int  // sizes of the successive body reads before EOF
+	ReadErr     bool   // the body fails after the chunks instead of reaching EOF
+	EndWithData bool   // the final EOF / error is returned by the SAME Read call that delivers the last chunk (io.Reader allows it)
+	Prefix      string // first bytes of the body (selects the MIME type the real sniffer sees in the native replay)
 }
 
 type Body struct {
-	chunks   []int
-	readErr  bool
-	pos      int
-	off      int
-	EOF      bool
-	Closed   int
-	Failed   bool
-	feedback chan struct{}
-	signaled bool
-	Reads    int
-	prefix   string
-	sent     int
-	URL      string      // the request this body answers
-	Written  atomic.Bool // the response's record is in the WARC
+	chunks      []int
+	readErr     bool
+	pos         int
+	off         int
+	EOF         bool
+	Closed      int
+	Failed      bool
+	feedback    chan struct{}
+	signaled    bool
+	Reads       int
+	prefix      string
+	sent        int
+	endWithData bool
+	URL         string      // the request this body answers
+	Written     atomic.Bool // the response's record is in the WARC
 }
 
 var doMu sync.Mutex
@@ -111,6 +113,16 @@ func (b *Body) Read(p []byte) (int, error) {
 		b.pos++
 		b.off = 0
 	}
+	if b.endWithData && b.pos >= len(b.chunks) {
+		// the last bytes come together with the end of the stream
+		if b.readErr {
+			b.Failed = true
+			return n, ErrBodyRead
+		}
+		b.EOF = true
+		b.signal()
+		return n, io.EOF
+	}
 	return n, nil
 }
 
@@ -122,7 +134,7 @@ func (b *Body) Close() error {
 
 func HTTPClientDo(c *http.Client, req *http.Request) (*http.Response, error) {
 	runtime.Gosched() // network I/O: every interleaving with the other goroutines is possible here
-	doMu.Lock() // (the model's own bookkeeping; requests may come from concurrent fetches)
+	doMu.Lock()       // (the model's own bookkeeping; requests may come from concurrent fetches)
 	i := DoCalls
 	DoCalls++
 	if i >= len(DoScript) {
@@ -137,7 +149,7 @@ func HTTPClientDo(c *http.Client, req *http.Request) (*http.Response, error) {
 	if v := req.Context().Value("feedback"); v != nil {
 		fb = v.(chan struct{})
 	}
-	b := &Body{chunks: o.Chunks, readErr: o.ReadErr, feedback: fb, prefix: o.Prefix, URL: req.URL.String()}
+	b := &Body{chunks: o.Chunks, readErr: o.ReadErr, feedback: fb, prefix: o.Prefix, URL: req.URL.String(), endWithData: o.EndWithData}
 	DoBodies = append(DoBodies, b)
 	doMu.Unlock()
 	h := o.Header
@@ -240,8 +252,8 @@ func (s *Spool) Write(p []byte) (int, error) {
 	s.Written += len(p)
 	return len(p), nil
 }
-func (s *Spool) Read(p []byte) (int, error)                 { s.seeked = true; return 0, io.EOF }
-func (s *Spool) ReadAt(p []byte, off int64) (int, error)    { return 0, io.EOF }
+func (s *Spool) Read(p []byte) (int, error)                { s.seeked = true; return 0, io.EOF }
+func (s *Spool) ReadAt(p []byte, off int64) (int, error)   { return 0, io.EOF }
 func (s *Spool) Seek(off int64, whence int) (int64, error) { s.seeked = true; return 0, nil }
 func (s *Spool) Close() error                              { s.Closed++; return nil }
 func (s *Spool) FileName() string                          { return "" }
